@@ -132,6 +132,14 @@ def convex_qp(rng, n, m, var_kinds=None, row_kinds=None, fmt="coo", quad_rows=Fa
         elif k == "upper":
             cl[i] = -INF
             cu[i] = cf[i] + rng.uniform(0.1, 1.0)
+        elif k == "narrow":
+            # a ranged row of large magnitude and small relative width (still a genuine range, not an equation)
+            V = float(10.0 ** rng.integers(3, 7)) * (1.0 if rng.uniform() < 0.5 else -1.0)
+            b[i] = cf[i] - V
+            w = 5e-6 * abs(V)
+            t = rng.uniform(0.2, 0.8)
+            cl[i] = V - t * w
+            cu[i] = V + (1 - t) * w
         else:
             cl[i] = cf[i] - rng.uniform(0.1, 1.0)
             cu[i] = cf[i] + rng.uniform(0.1, 1.0)
